@@ -88,7 +88,7 @@ def ob_smt(run):
         if not isinstance(x, SObj) or not isinstance(y, SObj): return False
         a, b = sorted([tag(x), tag(y)])
         return z3.Bool('EQ(%s,%s)' % (a, b))
-    IH = {QN: Contract(QN, result=lambda ctx, c: KeyTok(c)),
+    IH = {QN: Contract(QN, result=lambda ctx, c, *rest: KeyTok(c)),
           '%s:key_expr_compose' % MOD: Contract('%s:key_expr_compose' % MOD, inline=True)}
     def build(K, vec, sfx=''):
         kids = []
